@@ -180,6 +180,9 @@ func exec(c px.Context, op string, args []sx.Sexp) (res core.Result) {
 	if op == "cache" {
 		return execCache(args)
 	}
+	if op == "files" {
+		return execFiles(args)
+	}
 	if op != "sched" {
 		return core.Result{Out: "bad-op", Pred: "n/a"}
 	}
@@ -847,6 +850,8 @@ func gen(g *core.G) {
 
 	// the lazily built type caches of a shared value
 	genCache(g)
+	// file-based loading: the per-name instantiation lock
+	genFiles(g)
 
 	// 3. malformed
 	for _, l := range []string{
